@@ -137,6 +137,12 @@ def idx3 : Index := fun h => if h.length % 3 = 0 then some 1 else none
 def req : List Digest := (List.range 45).map (fun i => ⟨String.ofList (List.replicate i 'a'), 1⟩)
 example : (findMissing 20 (fun _ => idx3) none 100 req).length = 30 := by decide
 
+/-! non-vacuity of the back-end size theorems: a back end that holds the hash with one byte more
+than stated does not vouch; one that reports no size, or the stated size, does -/
+example : stillMissing (fun _ => none) (some (fun d => some (d.size + 1))) 1000 ⟨"h", 5⟩ = true ∧
+    stillMissing (fun _ => none) (some (fun _ => some (-1))) 1000 ⟨"h", 5⟩ = false ∧
+    stillMissing (fun _ => none) (some (fun d => some d.size)) 1000 ⟨"h", 5⟩ = false := by decide
+
 #print axioms chunked_eq_filter
 #print axioms result_is_ordered_sublist
 #print axioms present_throughout_not_reported
